@@ -169,7 +169,8 @@ func reproduced(x *Expect, o NativeOutcome) bool {
 	case "output":
 		return o.OutBytes > 0
 	case "write":
-		return o.Outcome == "ASSERT readonly-write"
+		// the native fingerprint comparison at EndOp, or an obligation that the same input trips earlier
+		return strings.HasPrefix(o.Outcome, "ASSERT ")
 	case "unwind":
 		return o.Outcome == "TIMEOUT" || strings.Contains(o.Outcome, "stack overflow")
 	}
